@@ -237,7 +237,7 @@ def main():
             san = tie.cxx_build(flags, 'asan-mpi' if use_mpi else 'asan')
             env = dict(os.environ); env['ASAN_OPTIONS'] = 'detect_leaks=0'; env['VERIF_TMP'] = os.path.join(BUILD, 'tmp')
             lines = [dump([i, t, cmd, args, []]) for (i, t, cmd, args) in cases]
-            outs = tie.run_driver(san, lines, env=env, chunk=40, timeout=3000)
+            outs = tie.run_driver(san, lines, env=env, chunk=40, timeout=3000, cpu_limit=900, mem_limit=None)      # (ASan reserves terabytes of address space)
             undefined = set(r['case'][0] for r in results if textcmp.has_ub(r['model'])) if cxx_results is not None else set()
             crashed = [(c_, o) for c_, o in zip(cases, outs) if o.startswith('(crash') and c_[0] not in undefined]      # (inputs on which the model already reports undefined behaviour are excluded)
             thorough_extra['sanitizer'] = {'cases': len(cases), 'crashed': len(crashed), 'wall_s': round(time.time() - t1, 1)}
